@@ -1,10 +1,16 @@
-import LopdfModel.Thm.FileHistory
+import LopdfModel.Thm.FileRt
 /-
   Normal forms (real numbers) for the cross-reference-stream dictionary: the facts the readers
   need about `normD (streamTrailer pre d)` when the document's trailer contains real numbers.
 -/
 namespace Lopdf.FileRT
 open Lopdf Gen Lopdf.ObjRt
+
+/-- the cross-reference stream object a stream-style save appends to `pre` -/
+def xrefObjP (pre : Bytes) (d : SDoc) : Obj :=
+  .stream (streamTrailer pre d) (xrefStreamContent (streamSecs (xmapStream pre d) (d.maxId + 1)))
+
+theorem xrefObj_eq (d : SDoc) : xrefObj d = xrefObjP [] d := rfl
 
 /-- a value is fine for the normal-form theorems (reals allowed) -/
 def ValOKN (o : Obj) : Prop := WF (fun _ => True) o ∧ height o ≤ MAX_NESTING - 1
